@@ -20,7 +20,8 @@ PROPS = {
     },
     "C14": {
         "prop_file": "Properties/C14pure.v",
-        "coq_targets": ["Properties/C14pure.vo", "Cases/IdsRun.vo"],
+        "coq_targets": ["Properties/C14pure.vo", "Properties/C14.vo", "Cases/IdsRun.vo", "Cases/LedgerRun.vo", "Ledger/Tie.vo"],
+        "extra_prop_files": ["Properties/C14.v"],
         "families": [{"module": H, "cmd": "idstrings"}],
         "trusted_base": ["regexes/format verbs/layout regenerated from the Go AST into Generated/IdConsts.v"],
         "assumptions": ["GetCreditTypeAbbrevFromClassID is modelled on ASCII input (non-ASCII cases counted and skipped)"],
@@ -42,6 +43,33 @@ LEDGER_AS = ["every credit type has precision 6 (enforced by CreditType.Validate
              "addresses are known accounts (users, gov, module accounts); timestamps within protobuf range; infinite gas meter"]
 
 PROPS.update({
+    "C09": {
+        "prop_file": "Properties/C09.v",
+        "coq_targets": ["Properties/C09.vo", "Cases/GenesisRun.vo", "Cases/LedgerRun.vo", "Ledger/Tie.vo"],
+        "families": [dict(LEDGER, emit="genesis"), {"module": H, "cmd": "genesisprobe", "emit": "genesis"}],
+        "trusted_base": LEDGER_TB + ["Genesis/Validators.v is a hand transcription of every state Validate() and of ValidateGenesis' cross-table checks (its verdict is compared with the real ValidateGenesis on every exported state)",
+                                     "the ORM JSON export/import codec is modelled as the identity on rows; the real round trip is executed by the harness (genesis_rt items)"],
+        "assumptions": LEDGER_AS + ["stored coefficients below 10^100000 (small_state)"],
+    },
+    "C11": {
+        "prop_file": "Properties/C11.v",
+        "coq_targets": ["Properties/C11.vo", "Cases/LedgerRun.vo", "Ledger/Tie.vo"],
+        "families": [LEDGER],
+        "trusted_base": LEDGER_TB, "assumptions": LEDGER_AS,
+    },
+    "C13": {
+        "prop_file": "Properties/C13.v",
+        "coq_targets": ["Properties/C13.vo", "Cases/LedgerRun.vo", "Ledger/Tie.vo"],
+        "families": [LEDGER],
+        "trusted_base": LEDGER_TB, "assumptions": LEDGER_AS + ["history theorem stated for base-module messages (basket and marketplace handlers never touch the origin-tx and contract tables: frame lemmas)"],
+    },
+    "C17": {
+        "prop_file": "Properties/C17.v",
+        "coq_targets": ["Properties/C17.vo", "Properties/C17pure.vo", "Properties/C14.vo", "Cases/QueryRun.vo"],
+        "families": [{"module": H, "cmd": "queries"}],
+        "trusted_base": ["Query/Queries.v models each list query as filter + index order over the ledger state model; Query/Paginate.v models the ORM paginator (both validated against the real gRPC query services)"],
+        "assumptions": ["cursor bytes are opaque (only presence and page contents are compared); requests with offset beyond the row count are outside the property (known ORM panic, counted separately)"],
+    },
     "C16": {
         "prop_file": "Properties/C16.v",
         "coq_targets": ["Properties/C16.vo", "Cases/DataRun.vo", "Data/Tie.vo"],
@@ -71,3 +99,6 @@ PROPS.update({
         "trusted_base": LEDGER_TB, "assumptions": LEDGER_AS,
     },
 })
+
+PROPS["C14"]["families"].append(LEDGER)
+PROPS["C14"]["trusted_base"] = PROPS["C14"]["trusted_base"] + LEDGER_TB
